@@ -195,3 +195,108 @@ Proof.
     destruct (IH xs eq_refl) as (outs & Hf & ->). exists (o :: outs). split; [constructor; [reflexivity | exact Hf]|].
     destruct o; reflexivity.
 Qed.
+
+(* ---- the top-level statement: every well-formed document, every time ------------------------------------------- *)
+From TT Require Import Spec.DocWf.
+
+(* the content model of the model API makes br and text leaves *)
+Lemma cm_ok_leaf_wf : forall e, cm_ok e = true -> leaf_wf e = true.
+Proof.
+  induction e as [a cs IH] using elem_ind2. intros H. rewrite leaf_wf_node.
+  assert (Hn : cm_ok (Elem a cs) = forallb (fun c => child_ok (e_kind a) (e_kind (eattrs c))) cs && forallb cm_ok cs) by reflexivity.
+  rewrite Hn in H. apply andb_true_iff in H as [Hk Hcs]. apply andb_true_iff. split.
+  - destruct (e_kind a); try reflexivity; (destruct cs as [|c cs']; [reflexivity | cbn in Hk; discriminate]).
+  - apply forallb_forall. intros c Hc. rewrite Forall_forall in IH. rewrite forallb_forall in Hcs. apply (IH c Hc), (Hcs c Hc).
+Qed.
+Lemma doc_wf_body_leaf d : doc_wf d = true -> match d_body d with Some b => leaf_wf b = true | None => True end.
+Proof.
+  unfold doc_wf. intros H. apply andb_true_iff in H as [_ H]. destruct (d_body d) as [b|]; [|exact I].
+  unfold body_ok in H. apply andb_true_iff in H as [_ H]. apply cm_ok_leaf_wf, H.
+Qed.
+Lemma doc_wf_region_kind d r : doc_wf d = true -> In r (d_regions d) -> e_kind (eattrs r) = KRegion.
+Proof.
+  unfold doc_wf. intros H Hr. apply andb_true_iff in H as [H _]. rewrite forallb_forall in H. specialize (H r Hr).
+  unfold region_ok in H. apply andb_true_iff in H as [H _]. apply andb_true_iff in H as [H _].
+  destruct (e_kind (eattrs r)); try discriminate; reflexivity.
+Qed.
+
+(* the regions a snapshot is made from, each with the region identity used for selection: the document's regions in
+   put_region order, or the default region (selected by "no region") when the document declares none *)
+Definition snapshot_sources (d : doc) : list (elem * option text) :=
+  match d_regions d with [] => [(default_region, None)] | rs => map (fun r => (r, e_id (eattrs r))) rs end.
+
+(* a region of the snapshot carries the id of the region it was made from: nothing moves to another region *)
+Lemma finish_id a st children x : finish_element a st children = Ok (Some x) -> e_id (eattrs x) = e_id a /\ e_kind (eattrs x) = e_kind a.
+Proof.
+  unfold finish_element. intros H.
+  destruct (negb (push_children_ok (e_kind a) children) && is_nonempty_l children); [discriminate|].
+  match type of H with context [Elem ?at_ ?ch] => set (e' := Elem at_ ch) in H end.
+  assert (Hk : e_id (eattrs e') = e_id a /\ e_kind (eattrs e') = e_kind a) by (split; reflexivity).
+  destruct (keep_always (e_kind a)); [injection H as <-; exact Hk|].
+  match type of H with match ?c with _ => _ end = _ => destruct c end; [|injection H as <-; exact Hk].
+  destruct (e_kind a); try discriminate.
+  destruct (sget (strip_inapplicable KRegion st) p_ShowBackground) as [v|]; [|discriminate].
+  destruct v; try discriminate. destruct (tag =? e_ShowBackgroundType_always); [injection H as <-; exact Hk | discriminate].
+Qed.
+Lemma proc_region_id d t sel r x : proc_region d t sel r = Ok (Some x) ->
+  e_id (eattrs x) = e_id (eattrs r) /\ e_kind (eattrs x) = e_kind (eattrs r).
+Proof.
+  unfold proc_region. intros H. destruct (negb (active_at t _)); [discriminate|].
+  destruct (style_phase d t _ None _) as [st|]; [|discriminate]. cbn [bind] in H.
+  destruct (display_none st); [discriminate|].
+  match type of H with bind ?g _ = _ => destruct g as [children|] end; [|discriminate]. cbn [bind] in H.
+  apply finish_id in H. exact H.
+Qed.
+
+Lemma Forall2_map_l {A B C} (f : A -> B) (P : B -> C -> Prop) : forall l outs, Forall2 P (map f l) outs -> Forall2 (fun x o => P (f x) o) l outs.
+Proof.
+  induction l as [|x l IH]; intros outs H; inversion H; subst; constructor; [assumption | apply IH; assumption].
+Qed.
+
+(* MAIN (top level): the snapshot of a well-formed document at t consists, region by region and in region order, of
+   exactly the regions whose per-leaf TTML2 specification it equals: each source region either appears — under its own
+   id, showing exactly the leaves `leaves_spec` prescribes (chain active, region-selected, displayed; once each, in
+   document order) — or is absent, and then the specification prescribes no leaf for it *)
+Definition region_matches (d : doc) (t : Q) (src : elem * option text) (o : option elem) : Prop :=
+  leaves_opt o = leaves_spec d t (eattrs (fst src)) (snd src) /\
+  match o with Some x => e_id (eattrs x) = e_id (eattrs (fst src)) /\ e_kind (eattrs x) = KRegion | None => True end.
+
+Theorem snapshot_spec d t rs : doc_wf d = true -> isd d t = Ok rs ->
+  exists outs, Forall2 (region_matches d t) (snapshot_sources d) outs /\
+               rs = flat_map (fun o => match o with Some e => [e] | None => [] end) outs.
+Proof.
+  intros Hwf Hi. pose proof (doc_wf_body_leaf d Hwf) as Hleaf.
+  assert (Hone : forall r sel o, e_kind (eattrs r) = KRegion -> proc_region d t sel r = Ok o -> region_matches d t (r, sel) o).
+  { intros r sel o Hk Ho. split; cbn [fst snd].
+    - apply (region_leaves d t sel r o Hk Hleaf Ho).
+    - destruct o as [x|]; [|exact I]. destruct (proc_region_id d t sel r x Ho) as [H1 H2]. split; [exact H1 | rewrite H2; exact Hk]. }
+  unfold isd in Hi. unfold snapshot_sources. destruct (d_regions d) as [|r0 rest] eqn:Er.
+  - apply collect_regions_spec in Hi as (outs & HF & ->). exists outs. split; [|reflexivity].
+    inversion HF as [|? o ? outs' Ho HF']; subst. inversion HF'; subst. constructor; [|constructor].
+    apply (Hone default_region None o eq_refl Ho).
+  - apply collect_regions_spec in Hi as (outs & HF & ->). exists outs. split; [|reflexivity].
+    apply Forall2_map_l in HF.
+    assert (Hin : forall r, In r (r0 :: rest) -> e_kind (eattrs r) = KRegion) by (intros r Hr; apply (doc_wf_region_kind d r Hwf); rewrite Er; exact Hr).
+    clear Er. revert outs HF. induction (r0 :: rest) as [|r l IH]; intros outs HF; inversion HF as [|? o ? outs' Ho HF']; subst; [constructor|].
+    cbn [map]. constructor.
+    + apply (Hone r (e_id (eattrs r)) o (Hin r (or_introl eq_refl)) Ho).
+    + apply IH; [intros x Hx; apply Hin; right; exact Hx | exact HF'].
+Qed.
+
+(* the hypothesis is satisfiable and the statement is not vacuous: a two-region document whose snapshot at t = 1 shows
+   the text "x" in region r1 only *)
+Definition c01_ex_doc : doc :=
+  mkDoc [Elem (mkAttrs KRegion (Some [114%Z; 49%Z]) None None None [] [] false [] []) [];
+         Elem (mkAttrs KRegion (Some [114%Z; 50%Z]) None None None [] [] false [] []) []]
+        (Some (Elem (mkAttrs KBody None None None None [] [] false [] [])
+           [Elem (mkAttrs KDiv None None None (Some [114%Z; 49%Z]) [] [] false [] [])
+              [Elem (mkAttrs KP None (Some (Qmake 1 1)) (Some (Qmake 2 1)) None [] [] false [] [])
+                 [Elem (mkAttrs KSpan None None None None [] [] false [] []) [Elem (mkAttrs KText None None None None [] [] false [] [120%Z]) []]]]]))
+        [] 15%Z 32%Z 1080%Z 1920%Z None None [].
+Lemma snapshot_spec_example :
+  doc_wf c01_ex_doc = true /\
+  (exists rs, isd c01_ex_doc (Qmake 1 1) = Ok rs /\ map (fun r => leaves_opt (Some r)) rs = [[LText [120%Z]]; []]) /\
+  (exists rs, isd c01_ex_doc (Qmake 2 1) = Ok rs /\ map (fun r => leaves_opt (Some r)) rs = [[]; []]).
+Proof.
+  split; [vm_compute; reflexivity|]. split; eexists; split; vm_compute; reflexivity.
+Qed.
